@@ -269,6 +269,11 @@ func corpusGroup(c *Chooser, cp *Corpus, taken map[string]bool, gi int) (*c09Gro
 
 func fragGroup(c *Chooser, taken map[string]bool, gi int) *c09Group {
 	f := frags[c.Int("world.frag", len(frags))]
+	if c.Weighted("world.defectivecallee", 1, 8) {
+		// a job that uses a local action / reusable workflow with a defect of its own: the defect is
+		// reported once per run (C10's clause), everything else about the job stays independent
+		f = defectiveFrags[c.Int("world.dfrag", len(defectiveFrags))]
+	}
 	prefix := fmt.Sprintf("g%d", gi)
 	_, ids, blocks := f.Render(prefix)
 	g := &c09Group{name: "frag:" + f.Name, assets: f.Assets}
@@ -348,7 +353,13 @@ func (c09) Eval(c *Chooser, env *Env) *Outcome {
 	w := c09World(c09Disk(assetNames, text, cfg))
 	w.Note = "C09 composed workflow"
 	o.World = w
-	res := RunLint(w, c, RunOpts{KeepTrace: env.KeepTrace})
+	ro := RunOpts{KeepTrace: env.KeepTrace}
+	if w.API != APIMain && c.Weighted("world.secondcall", 1, 6) {
+		// one more history: the Linter instance has checked this workflow once already
+		ro.Repeat, ro.ReuseLinter = 2, true
+		o.probe("second_call_on_one_linter", 1)
+	}
+	res := RunLint(w, c, ro)
 	o.addRun(res.K)
 	if env.KeepTrace {
 		o.Traces = append(o.Traces, res.K.Trace)
@@ -375,6 +386,24 @@ func (c09) Eval(c *Chooser, env *Env) *Outcome {
 		return o
 	}
 	gotBlocks, gotHeader := relativise(res.Errs, starts, lens)
+	// diagnostics about a local callee's own defects are reported once per run, at whichever job
+	// uses the callee first: they are compared by count, not by job
+	gotDef, wantDef := map[string]int{}, map[string]int{}
+	defectsComparable := true
+	splitDefects := func(ds []relDiag, into map[string]int) []relDiag {
+		var rest []relDiag
+		for _, d := range ds {
+			if reCalleeDefect.MatchString(d.Msg) {
+				into[d.Msg]++
+				continue
+			}
+			rest = append(rest, d)
+		}
+		return rest
+	}
+	for i := range gotBlocks {
+		gotBlocks[i] = splitDefects(gotBlocks[i], gotDef)
+	}
 	for gi, g := range groups {
 		// the group's blocks in composed order
 		var mine []c09Block
@@ -393,13 +422,24 @@ func (c09) Eval(c *Chooser, env *Env) *Outcome {
 		}
 		if ref.fatal != "" {
 			o.probe("alone_fatal", 1)
+			defectsComparable = false
 			continue
 		}
+		mineDef := map[string]int{}
+		refBlocks := make([][]relDiag, len(ref.perBlock))
+		for k := range ref.perBlock {
+			refBlocks[k] = splitDefects(ref.perBlock[k], mineDef)
+		}
+		for m, n := range mineDef {
+			if n > wantDef[m] {
+				wantDef[m] = n
+			}
+		}
 		for k, bi := range mineIdx {
-			if !relEqual(gotBlocks[bi], ref.perBlock[k]) {
-				kinds := diffKinds(gotBlocks[bi], ref.perBlock[k])
+			if !relEqual(gotBlocks[bi], refBlocks[k]) {
+				kinds := diffKinds(gotBlocks[bi], refBlocks[k])
 				o.V = &Violation{Oracle: "job-independence", Class: "job-diff:" + kinds,
-					Message: fmt.Sprintf("job %q (group %s) gets different diagnostics in the composed workflow than when linted with only its header and needed jobs.\n  alone:\n%s  composed (with %d other jobs, lines relative to the job):\n%s", all[bi].id, g.name, relString(ref.perBlock[k]), len(all)-len(mine), relString(gotBlocks[bi])),
+					Message: fmt.Sprintf("job %q (group %s) gets different diagnostics in the composed workflow than when linted with only its header and needed jobs.\n  alone:\n%s  composed (with %d other jobs, lines relative to the job):\n%s", all[bi].id, g.name, relString(refBlocks[k]), len(all)-len(mine), relString(gotBlocks[bi])),
 					Detail:  map[string]any{"composed_workflow": text}}
 				return o
 			}
@@ -408,6 +448,24 @@ func (c09) Eval(c *Chooser, env *Env) *Outcome {
 			if !relEqual(gotHeader, ref.header) {
 				o.V = &Violation{Oracle: "header-independence", Class: "header-diff:" + diffKinds(gotHeader, ref.header),
 					Message: fmt.Sprintf("the workflow header gets different diagnostics depending on which jobs follow it.\n  with group %s only:\n%s  composed:\n%s", g.name, relString(ref.header), relString(gotHeader)),
+					Detail:  map[string]any{"composed_workflow": text}}
+				return o
+			}
+		}
+	}
+	if defectsComparable {
+		for _, m := range sortedKeys(wantDef) {
+			if gotDef[m] != wantDef[m] {
+				o.V = &Violation{Oracle: "callee-defect-once", Class: "callee-defect-count",
+					Message: fmt.Sprintf("a defect of a local callee is reported %d time(s) in the composed workflow but %d time(s) when the jobs using it are linted alone: %s", gotDef[m], wantDef[m], m),
+					Detail:  map[string]any{"composed_workflow": text}}
+				return o
+			}
+		}
+		for _, m := range sortedKeys(gotDef) {
+			if _, ok := wantDef[m]; !ok {
+				o.V = &Violation{Oracle: "callee-defect-once", Class: "callee-defect-spurious",
+					Message: fmt.Sprintf("the composed workflow reports a defect of a local callee that no job reports when linted alone: %s", m),
 					Detail:  map[string]any{"composed_workflow": text}}
 				return o
 			}
